@@ -1,4 +1,145 @@
 import RP.Driver.Common
--- line-protocol driver for property C12 (stub)
-def handle (_line : String) : String := "unimplemented"
+import RP.Model.Transport
+import Std.Data.HashMap
+/-! line-protocol driver for C12 (`Float32` instantiation of `RP.Transport`)
+
+```
+abs <street> <index>                          → <code>
+hist <n> <code>*                              → <mass> <n> (<code> <count>)*
+mnorm <k> (<key> <bits>)*                     → <k> (<key> ~v)*
+edist <a> <b>                                 → ~v
+sk <H mu> <H nu> <M>                          → ok L ~.. R ~.. C ~cost S ~colsum.. [P ~plan..] | panic
+var <H x> <H y>                               → ~v
+greedy <H src> <H tgt> <M>                    → ok C ~cost K <n> (<key> ~v)* | panic
+H = <n> <mass> (<code> <count>)*      M = <k> (<key> <f32 bits>)*
+```
+Floats enter as raw `f32` bit patterns and leave as `~decimal`. -/
+open RP.Driver RP.Transport
+
+abbrev F := Float32
+
+def Tf : F := Float32.ofNat RP.Gen.C12.temperature.1 / Float32.ofNat RP.Gen.C12.temperature.2
+def tolf : F := Float32.ofNat RP.Gen.C12.tolerance.1 / Float32.ofNat RP.Gen.C12.tolerance.2
+
+def nat? (s : String) : Option Nat := s.toNat?
+
+def f32ofBits? (s : String) : Option F := (s.toNat?).bind fun n => if n < 2 ^ 32 then some (Float32.ofBits n.toUInt32) else none
+
+/-- parse `<n> <mass> (<code> <count>)*` -/
+def parseHist : List String → Option (Hist × List String)
+  | n :: mass :: rest => do
+    let n ← nat? n
+    let mass ← nat? mass
+    if rest.length < 2 * n then none else
+    let rec go : Nat → List String → List (Nat × Nat) → Option (List (Nat × Nat) × List String)
+      | 0, ts, acc => some (acc.reverse, ts)
+      | k + 1, a :: c :: ts, acc => do go k ts (((← nat? a), (← nat? c)) :: acc)
+      | _, _, _ => none
+    let (cs, rest') ← go n rest []
+    some (⟨mass, cs⟩, rest')
+  | _ => none
+
+/-- parse `<k> (<key> <bits>)*` -/
+def parseMetric : List String → Option (Metric F × List String)
+  | k :: rest => do
+    let k ← nat? k
+    let rec go : Nat → List String → List (Nat × F) → Option (List (Nat × F) × List String)
+      | 0, ts, acc => some (acc.reverse, ts)
+      | k + 1, a :: c :: ts, acc => do go k ts (((← nat? a), (← f32ofBits? c)) :: acc)
+      | _, _, _ => none
+    let (es, rest') ← go k rest []
+    some (⟨es⟩, rest')
+  | _ => none
+
+/-- `Metric.distance` with the entry list indexed by a hash map (same answers as `List.lookup`
+    on the first occurrence of a key) -/
+def fastTable (m : Metric F) : Std.HashMap Nat F :=
+  m.entries.foldl (fun t e => if t.contains e.1 then t else t.insert e.1 e.2) {}
+
+def fastDistance (t : Std.HashMap Nat F) (x y : Nat) : Option F :=
+  if x = y then some (Float32.ofNat 0)
+  else if variantOf x = 1 ∧ variantOf y = 1 then t.get? (pairKey x y)
+  else if variantOf x = 0 ∧ variantOf y = 0 then some (equityDistance x y)
+  else none
+
+def fmts (xs : List F) : String := joinSp (xs.map fmt32)
+
+def runSk (mu nu : Hist) (m : Metric F) : String :=
+  let t := fastTable m
+  let dO := fastDistance t
+  let covers := mu.support.all fun x => nu.support.all fun y => (dO x y).isSome && (dO y x).isSome
+  if mu.counts.isEmpty || nu.counts.isEmpty || !covers then "panic" else
+  let d : Nat → Nat → F := fun x y => (dO x y).getD (Float32.ofNat 0)
+  match skLoop d Tf tolf mu nu RP.Gen.C12.iterations (skInit mu nu) with
+  | none => "panic"
+  | some s =>
+    match cost d Tf s with
+    | none => "panic"
+    | some c =>
+      let p := plan d Tf s
+      let cols := (List.range s.rhs.length).map fun j => sum (p.map fun row => row.getD j (Float32.ofNat 0))
+      let small := s.lhs.length * s.rhs.length ≤ 256
+      s!"ok L {fmts (s.lhs.map Prod.snd)} R {fmts (s.rhs.map Prod.snd)} C {fmt32 c} S {fmts cols}"
+        ++ (if small then s!" P {fmts p.flatten}" else "")
+
+def runGreedy (src tgt : Hist) (m : Metric F) : String :=
+  let t := fastTable m
+  match greedy (fastDistance t) src tgt with
+  | none => "panic"
+  | some g =>
+    s!"ok C {fmt32 (greedyCost g)} K {g.plan.length}"
+      ++ String.join (g.plan.map fun e => s!" {e.1} {fmt32 e.2}")
+
+def handle (line : String) : String :=
+  match words line with
+  | ["abs", s, i] =>
+    match nat? s, nat? i with
+    | some s, some i => if s < 4 then toString (absCode s i) else "bad-op"
+    | _, _ => "bad-op"
+  | "hist" :: n :: rest =>
+    match nat? n, rest.mapM nat? with
+    | some n, some cs =>
+      if cs.length ≠ n then "bad-op" else
+      let h := Hist.ofList cs
+      s!"{h.mass} {h.n}" ++ String.join (h.counts.map fun e => s!" {e.1} {e.2}")
+    | _, _ => "bad-op"
+  | "mnorm" :: rest =>
+    match parseMetric rest with
+    | some (m, []) =>
+      let r : Metric F := Metric.normalize m.entries
+      s!"{r.entries.length}" ++ String.join (r.entries.map fun e => s!" {e.1} {fmt32 e.2}")
+    | _ => "bad-op"
+  | ["edist", a, b] =>
+    match nat? a, nat? b with
+    | some a, some b => fmt32 (equityDistance a b : F)
+    | _, _ => "bad-op"
+  | "sk" :: rest =>
+    match parseHist rest with
+    | some (mu, r1) =>
+      match parseHist r1 with
+      | some (nu, r2) =>
+        match parseMetric r2 with
+        | some (m, []) => runSk mu nu m
+        | _ => "bad-op"
+      | none => "bad-op"
+    | none => "bad-op"
+  | "var" :: rest =>
+    match parseHist rest with
+    | some (x, r1) =>
+      match parseHist r1 with
+      | some (y, []) => fmt32 (variation x y : F)
+      | _ => "bad-op"
+    | none => "bad-op"
+  | "greedy" :: rest =>
+    match parseHist rest with
+    | some (src, r1) =>
+      match parseHist r1 with
+      | some (tgt, r2) =>
+        match parseMetric r2 with
+        | some (m, []) => runGreedy src tgt m
+        | _ => "bad-op"
+      | none => "bad-op"
+    | none => "bad-op"
+  | _ => "bad-op"
+
 def main : IO Unit := RP.Driver.run handle
